@@ -74,7 +74,9 @@ Fixpoint handle_throw (catchable : bool) (ts : list frame) : list frame * hres :
 (* Part 3: the control skeleton                                                                 *)
 
 Inductive nkind :=
-| NCb                       (* builtin calling back through baseJsFuncObject.__call: sort comparator, forEach, getter *)
+| NCb                       (* builtin calling back through baseJsFuncObject.__call: sort comparator, forEach *)
+| NGet                      (* accessor called straight from an instruction (no native context; vm.prg != nil, so
+                               __call pushes a context and the extra halting frame, func.go:418-421) *)
 | NGo (swallow : bool)      (* Go function calling a Callable from AssertFunction (runWrapped + vm.try + __call) *)
 | NRun (swallow : bool).    (* Go function calling Runtime.RunString (recursive RunProgram) *)
 (* swallow = the Go function ignores the returned error and returns normally; otherwise it panics with it *)
@@ -255,9 +257,10 @@ Section Exec.
         let '(o, s1) := exec_c b (push_ctx s) in
         match o with ONorm => (ONorm, pop_ctx s1) | _ => (o, s1) end
     | INat k cbs =>
-        let s0 := push_ctx s in                                   (* the native call's own context *)
+        (* nativeFuncObject.vmCall: pushCtx; vm.prg = nil; f(); popCtx (func.go:566) *)
+        let s0 := match k with NGet => s | _ => push_ctx s end in
         let '(o, s1) := exec_cbs k cbs s0 in
-        match o with ONorm => (ONorm, pop_ctx s1) | _ => (o, s1) end
+        match o with ONorm => (ONorm, match k with NGet => s1 | _ => pop_ctx s1 end) | _ => (o, s1) end
     | IForOf ret bodies =>
         let s0 := set_its (ret :: its s) s in
         let '(o, s1) := exec_seq bodies s0 in
@@ -284,7 +287,11 @@ Section Exec.
   (* the run loop over a straight-line instruction stream: poll, then execute (vm.go:628-635) *)
   with exec_c (p : code) (s : st) {struct p} : outcome * st :=
     match p with
-    | CNil => (ONorm, s)
+    | CNil =>
+        (* every block ends with a control instruction (ret / halt / jump / leaveTry / leaveFinally /
+           the back edge of a loop): it is polled like any other *)
+        let s1 := tick c s in
+        if flag s1 then (OIntr (ival s1), s1) else (ONorm, bump_late (tick c s1))
     | CCons i p' =>
         let s1 := tick c s in
         if flag s1 then (OIntr (ival s1), s1)                    (* lock; read interruptVal; unlock; panic *)
@@ -316,6 +323,17 @@ Section Exec.
             let '(o, s1) := exec_c b (push_ctx s0) in
             match o with
             | ONorm => exec_cbs k l' (pop_frame (pop_ctx s1))
+            | OThrow => let '(o', s2) := restore_to c d s1 in
+                        match o' with OThrow => (OThrow, pop_frame s2) | _ => (o', recover_deferred s2) end
+            | OIntr _ => (o, recover_deferred s1)
+            end
+        | NGet =>
+            (* __call with vm.prg != nil: context + extra frame; ret pops one, popCtx the other *)
+            let s0 := push_frame FMarker s in
+            let d := length (ts s0) in
+            let '(o, s1) := exec_c b (push_ctx (push_ctx s0)) in
+            match o with
+            | ONorm => exec_cbs k l' (pop_frame (pop_ctx (pop_ctx s1)))
             | OThrow => let '(o', s2) := restore_to c d s1 in
                         match o' with OThrow => (OThrow, pop_frame s2) | _ => (o', recover_deferred s2) end
             | OIntr _ => (o, recover_deferred s1)
@@ -380,33 +398,37 @@ Section Exec.
         end
     end.
 
-  (* one promise job, run from leave() *)
+  (* one promise job, run from leave(): newPromiseReactionJob wraps the handler call in vm.try
+     (marker, deferred pop; builtin_promise.go:212) *)
   Definition run_job (j : job) (s : st) : outcome * st :=
     match j with
     | JPlain b =>
-        let s0 := push_frame FMarker s in
+        let s0 := push_frame FMarker (push_frame FMarker s) in       (* vm.try, then __call *)
         let d := length (ts s0) in
         let '(o, s1) := exec_c b (push_ctx s0) in
         match o with
-        | ONorm => (ONorm, pop_frame (pop_ctx s1))
+        | ONorm => (ONorm, pop_frame (pop_frame (pop_ctx s1)))
         | OThrow => let '(o', s2) := restore_to c d s1 in
-                    match o' with OThrow => (ONorm, pop_frame s2) | _ => (o', recover_deferred s2) end
-        | OIntr _ => (o, recover_deferred s1)
+                    match o' with
+                    | OThrow => (ONorm, pop_frame (pop_frame s2))
+                    | _ => (o', recover_deferred (recover_deferred s2))
+                    end
+        | OIntr _ => (o, recover_deferred (recover_deferred s1))
         end
     | JAsync b =>
         (* asyncRunner.onFulfilled -> generator.next: as exec_gen without the native call context *)
-        let s0 := push_ctx s in
+        let s0 := push_ctx (push_frame FMarker s) in
         let s1 := push_frame FMarker s0 in
         let d := length (ts s1) in
         let '(o, s2) := exec_c b (push_ctx s1) in
         match o with
-        | ONorm => (ONorm, pop_ctx (pop_frame (pop_ctx s2)))
+        | ONorm => (ONorm, pop_frame (pop_ctx (pop_frame (pop_ctx s2))))
         | OThrow => let '(o', s3) := restore_to c d s2 in
                     match o' with
-                    | OThrow => (ONorm, pop_ctx (pop_frame s3))
-                    | _ => (o', if fixed c then pop_ctx (pop_frame (unwind_u c s3)) else unwind_u c s3)
+                    | OThrow => (ONorm, pop_frame (pop_ctx (pop_frame s3)))
+                    | _ => (o', recover_deferred (if fixed c then pop_ctx (pop_frame (unwind_u c s3)) else unwind_u c s3))
                     end
-        | OIntr _ => (o, if fixed c then pop_ctx (pop_frame (unwind_u c s2)) else unwind_u c s2)
+        | OIntr _ => (o, recover_deferred (if fixed c then pop_ctx (pop_frame (unwind_u c s2)) else unwind_u c s2))
         end
     end.
 
